@@ -1,0 +1,31 @@
+//! Verification hooks (compiled only with the `verif-hooks` cargo feature).
+//!
+//! A thread-local override for the wall clock: every place in this crate that
+//! reads `chrono::Local::now()` passes the value it read through
+//! [`override_now`], which returns the injected instant when one is set and
+//! the real one otherwise.  A per-thread counter records how many times the
+//! clock was consulted, so a harness can tell whether a call depended on the
+//! clock at all.
+
+use std::cell::Cell;
+
+thread_local! {
+    static NOW: Cell<Option<chrono::NaiveDateTime>> = Cell::new(None);
+    static READS: Cell<u64> = Cell::new(0);
+}
+
+/// Injects (or, with `None`, removes) the instant reported as "now" on this thread.
+pub fn set_now(now: Option<chrono::NaiveDateTime>) {
+    NOW.with(|c| c.set(now));
+}
+
+/// Number of clock reads performed by this crate on this thread so far.
+pub fn clock_reads() -> u64 {
+    READS.with(|c| c.get())
+}
+
+#[inline]
+pub(crate) fn override_now(real: chrono::NaiveDateTime) -> chrono::NaiveDateTime {
+    READS.with(|c| c.set(c.get() + 1));
+    NOW.with(|c| c.get()).unwrap_or(real)
+}
